@@ -84,6 +84,17 @@ def gen(rng, tier):
         out.append(dict(nrec=nrec, deps=deps, attrs=attrs, iunit=rng.choice(['s', 'seconds since midnight', None, 'Start_UTC']),
                         wdate=rng.random() < 0.8, tdtype=rng.choice(['d', 'd', 'f', 'i']),
                         ipos=rng.choice([0, 0, 1, len(deps)])))      # where the independent variable sits among the input's variables
+    # on every run: dependent variables whose names are contained in the name of the independent variable (Start_UTC); missing
+    # codes that are the default fill values of netCDF doubles / the largest float32 (what a variable that came from netCDF
+    # carries), with missing cells
+    for names, codes in ((['UTC', 'Start', 't'], [-9999, -9999, -9999]),
+                         (['O3', 'CO'], [9.969209968386869e+36, 3.4028234663852886e+38]),
+                         (['UTC', 'NO2'], [3.402823e+38, 9.969209968386869e+36])):
+        nrec = rng.randint(3, 6)
+        deps = [dict(name=nm, unit='ppbv', vscale=None, code=cd, nocode=False, fill=cd,
+                     vals=[float(rng.randint(1, 90)) for _ in range(nrec)], mask=[i % 2 == 1 for i in range(nrec)])
+                for nm, cd in zip(names, codes)]
+        out.append(dict(nrec=nrec, deps=deps, attrs=[], iunit='s', wdate=True, tdtype='d', ipos=0))
     # on every run: a header comment of several lines (as a file with continuation lines gives after it was read): the counts
     # in the output are those of the lines that are written, so the output re-opens (oracle only: the text model has
     # one line per comment)
@@ -267,6 +278,18 @@ def impl(case):
                     res['auto'] = type(h).__name__
                 except Exception as e:
                     res['auto'] = 'raised %s' % type(e).__name__
+                # the same text under other names: ICARTT is comma separated text (.csv, .txt), or no suffix at all
+                import shutil
+                res['auto_as'] = {}
+                for suf in ('.csv', '.txt', ''):
+                    q = p[:-4] + '_copy' + suf
+                    shutil.copyfile(p, q)
+                    try:
+                        res['auto_as'][suf] = type(pnc.pncopen(q)).__name__
+                    except Exception as e:
+                        res['auto_as'][suf] = 'raised %s' % type(e).__name__
+                    finally:
+                        os.remove(q)
                 ncf2ffi1001(g, p2).close()
                 g2 = ffi1001(p2)
                 res['view2'] = view(g2)
@@ -368,6 +391,18 @@ def agree(case, out, res):
             if w[:5] + w[6:] != g[:5] + g[6:]:
                 return 'header lines model=%s impl=%s' % (want[:120], got[:120])
             continue
+        if k == 'deps':
+            # the missing code is a decimal text in the file and a double in the library: compared as doubles (a code such as
+            # 9.969209968386869e+36 is no whole number of the binary format)
+            def canon(txt):
+                out_ = []
+                for dep in txt.split(';'):
+                    fs = dep.split('|')
+                    if len(fs) >= 4:
+                        fs[3] = repr(float(Fraction(fs[3])))
+                    out_.append('|'.join(fs))
+                return ';'.join(out_)
+            want, got = canon(want), canon(got)
         if want != got:
             return 'reader %s: model=%s impl=%s' % (k, want[:160], got[:160])
     return None
@@ -401,6 +436,9 @@ def oracle(case, res):
         return 'declared %s dependent variables, wrote %d' % (text[9], len(case['deps']))
     if res['auto'] != 'ffi1001':
         return 'automatic format detection: %s' % res['auto']
+    for suf, nm in res.get('auto_as', {}).items():
+        if nm != 'ffi1001':
+            return "automatic format detection of the same text under the suffix '%s': %s" % (suf, nm)
     if len(v['deps']) != len(case['deps']):
         return '%d dependent variables read, %d written' % (len(v['deps']), len(case['deps']))
     for d, got in zip(case['deps'], v['deps']):
